@@ -181,8 +181,7 @@ def run(ctx):
             for n in ig.ev_nodes(lambda n: n.id in live and n.ev["e"] == "asg" and n.frame.id == 0):
                 lhs = strip_cast(n.ev.get("lhs"))
                 if isinstance(lhs, dict) and lhs.get("k") == "f" and lhs.get("n") == "next":
-                    if pstr(ig.resolve(n.ev["rhs"], n.frame)) == pstr(exp) and ig.dominated_by(a.node, [n]) and \
-                            not ig.path_exists(n, a.node, avoiding=[n]) is False:
+                    if pstr(ig.resolve(n.ev["rhs"], n.frame)) == pstr(exp) and ig.dominated_by(a.node, [n]):
                         ok = True
             ctx.ob("C08.R2e", inst, ok, a.node.where, "pushed node's next is not the head value the CAS expects")
 
